@@ -48,4 +48,17 @@
   || (LOWER((s)[0]) == 'g' && LOWER((s)[1]) == 'l' && LOWER((s)[2]) == 'o' && LOWER((s)[3]) == 'b' && LOWER((s)[4]) == 'a' \
       && LOWER((s)[5]) == 'l' && (s)[6] == '_' && (s)[7] == 0) )
 
+
+/* finite conjunction over the slots 0..MAXL-1 of a small array: used instead of a quantifier where the body compares
+ * pointers (cbmc 6.11's SAT back end mis-evaluates quantified bodies of pointer type, DESIGN 2) */
+#define EACH_2(F)  (F(0) && F(1))
+#define EACH_4(F)  (EACH_2(F) && F(2) && F(3))
+#define EACH_6(F)  (EACH_4(F) && F(4) && F(5))
+#define EACH_8(F)  (EACH_6(F) && F(6) && F(7))
+#define EACH_12(F) (EACH_8(F) && F(8) && F(9) && F(10) && F(11))
+#define EACH_16(F) (EACH_12(F) && F(12) && F(13) && F(14) && F(15))
+#define EACH_CAT2(n) EACH_##n
+#define EACH_CAT(n) EACH_CAT2(n)
+#define EACH_L(F) EACH_CAT(MAXL)(F)
+
 #endif
